@@ -14,9 +14,29 @@ GENERIC_NOTE = (
 T_GENERIC = "Lean 4 proof (structural induction / invariants / case analysis) + model-vs-implementation correspondence (differential, real code in-process) + Lean spec checker as oracle on the implementation's output"
 
 CLAIMED = {
+    "C01": dict(engine="rev", ref="6/C01",
+        text="C01.plan: for every history that loads (unique ids, existing down-revisions), every version-table content and every target string, whenever upgrade produces a plan it contains exactly the revisions the resolved targets require (down-revisions and dependencies, transitively) and the current rows do not imply, each once, every revision after all of its down-revisions and dependencies. Built on a complete proof of RevisionMap._topological_sort (loop invariants incl. the in-place ancestor-set shortcut, termination measure, fuel bound: the sort never asserts and never loops on an acyclic map), closure = reachability for _iterate_related_revisions, and norm_closure (normalized edges lose nothing). Model compared plan-for-plan with the real ScriptDirectory._upgrade_revs on every DAG with <=3 (thorough 4) revisions x every antichain state x every target form and on random DAGs driven by command sequences.",
+        note="the theorem is stated over the loaded map's graph (m.allDownOf: down revisions + dependencies as the code resolves them); target resolution is C16's; Python set iteration order of normalized dependencies is read from the implementation and checked to be a permutation.",
+        technique=T_GENERIC),
+    "C02": dict(engine="rev", ref="6/C02",
+        text="C02.plan: whenever downgrade produces a plan it is exactly the applied revisions that build on the roots (the target's down-revision children / all revisions without down-revision for base, narrowed to the named branch), each once, no revision before an applied revision that needs it; an empty plan is only returned when the target is a current row (otherwise RangeNotAncestorError); C02.target_safe: the target and its prerequisites are never in the plan. Same _topological_sort proof as C01 (convexity and coverage of desc*(roots) ∩ applied proved). Model compared plan-for-plan with the real _downgrade_revs; Lean checkers downgradeOk/mustRefuse judge the implementation's plans.",
+        note="as C01; the deprecated '-N from several heads' form depends on the row order of the SELECT, which is an explicit input.",
+        technique=T_GENERIC),
     "C04": dict(engine="online", ref="6/C04",
         text="Lean theorems over Model.Online.runFinal (begin_transaction decision tree, _ProxyTransaction.__exit__, per-step block of run_migrations, autocommit_block) for every plan length, every failing migration and every failure position, all (transactional_ddl, transaction_per_migration, external) settings: single_txn, per_migration, recorded_exactly_completed, nontransactional, rows_at_boundary, never_names_failed. Compared with the real MigrationContext on SQLite file databases (pysqlite default and the BEGIN recipe) with exhaustive failure positions; the Lean checker judges the post-failure observation of the real code.",
         note="backend DDL modes are a model (pysqlite legacy and SQLite BEGIN recipe validated live; PostgreSQL/MSSQL/MySQL servers not); single_txn/per_migration carry the hypothesis 'no autocommit_block before the failure'; version statements are parameters read from the real HeadMaintainer (row algebra is C03).",
+        technique=T_GENERIC),
+    "C06": dict(engine="diff", ref="6/C06",
+        text="quiet_partial and converge_partial kernel-checked for all well-formed schemas of the property's class (any size, arbitrary type arguments and default texts) under every compare_type/compare_server_default setting, with the SchemaOk hypothesis (plain defaults, types that reflect by name); the F9 family, affinity-reflected types and two batch defects are Lean counterexamples + known findings replayed on the real code. The property itself (quiet, converge through rendered code executed on SQLite) is observed on the real code on every run.",
+        note="Model.Diff.{ddlTy,reflTy,sqliteStore,createAll,reflect,apply} are tables/semantics of SQLAlchemy and SQLite validated against the live inspector and database on every run; as_diffs canonicaliser.",
+        technique=T_GENERIC),
+    "C07": dict(engine="diff", ref="6/C07",
+        text="detect_partial kernel-checked for all 15 documented change kinds, every schema in the class and every applicable mutation: the diff contains the op of the mutation's kind on its object and nothing that touches an unrelated object; type_family_detected, default_change_detected. Lean detectOk judges the implementation's as_diffs() for random base x every applicable mutation.",
+        note="as C06 (same model); SchemaOk hypothesis; F9-family counterexample.",
+        technique=T_GENERIC),
+    "C08": dict(engine="render", ref="6/C08",
+        text="Py.repr_roundtrip (CPython repr(str) model parses back to the string, all strings), C08.parse_pp (printer/parser round trip for all well-formed call ASTs), C08.render_wf and C08.syntax: the text every modelled renderer emits parses and denotes the intended call for all names; rendered text compared character by character with the model; the property itself (exec of rendered code vs invoke(op), SQL on 5 dialects) is observed on the real code on every run, its remaining failures classified into recorded known findings.",
+        note="type repr and SQLAlchemy DDL compilation are opaque in the model (oracle only); the evaluation half (evalCall) is not a theorem; str.isprintable is a parameter of pyRepr.",
         technique=T_GENERIC),
     "C09": dict(engine="filter", ref="6/C09",
         text="reverse_order proved for every op tree (mutual structural induction over nested ModifyTableOps); involution and undo proved in _partial form (clean / accurate ops) next to three kernel-checked counterexamples (F11 modify_name, F13 if_exists directives, F14 deferrable=False) recorded as known findings; model compared with op.reverse()/reverse().reverse() of the real ops, SQL on five dialects, and upgrade-then-downgrade executed on SQLite.",
